@@ -27,6 +27,17 @@ def CLASSIFY(c, real, msg):
         haps = {t for ps in c["ptx"] for f in ps["rows"] if f["t"] == "F" for t in f["tags"] if t not in R.KNOWN and not R.is_chr_tag(t)}
         if len(haps) >= 2 and dups and dups <= nametags:
             return "F20-homologues-share-name-in-tagged-assembly"
+    # the same defect seen in the written file: two scaffolds of one name in xx.1.falseduplicates.agp / contaminants.agp read back as one
+    m2 = re.search(r"xx\.1\.(falseduplicates|contaminants)\.agp does not contain exactly", msg)
+    if m2 and "ok" in real:
+        key = {"falseduplicates": "FalseDuplicate", "contaminants": "Contaminant"}[m2.group(1)]
+        names = [s_["name"] for a in real["ok"]["assemblies"] if a["key"] == key for s_ in a["scaffolds"]]
+        dups = {n for n in names if names.count(n) > 1}
+        prefix = "SUPER_"
+        nametags = {t for ps in c["ptx"] for f in ps["rows"] if f["t"] == "F" for t in f["tags"] if R.is_chr_tag(t)}
+        haps = {t for ps in c["ptx"] for f in ps["rows"] if f["t"] == "F" for t in f["tags"] if t not in R.KNOWN and not R.is_chr_tag(t)}
+        if len(haps) >= 2 and dups and {d[len(prefix):] if d.startswith(prefix) else d for d in dups} <= nametags:
+            return "F20-homologues-share-name-in-tagged-assembly"
     return None
 
 
@@ -49,7 +60,8 @@ def run(ctx):
         R.run_cases(ctx, stream, cases, PROJ, oracle, classify)
     # the CLI end to end (info yaml, file names, csv files) on a sample of the same generators
     cli_cases = [gen(ctx, kind) for stream, kind, n in streams(ctx) for _ in range(max(8, n // 25))]
-    R.run_cli_cases(ctx, "cli-end-to-end", cli_cases, classify, only=["chromosome list"])
+    cli_cases += [R.make_case(ctx.rng, "primarymode") for _ in range(60 if ctx.thorough else 12)]     # merged all_haplotigs files keep each haplotype's order
+    R.run_cli_cases(ctx, "cli-end-to-end", cli_cases, classify, only=["chromosome list", "does not contain exactly", "unexpected assembly files"])
     # history: the same maps remapped AFTER other maps of the same input on ONE IndexedAssembly object (in-process state must not matter)
     hk = ['tagged', 'unlocs']
     R.run_history_cases(ctx, "object-history", [R.make_case(ctx.rng, ctx.rng.choice(hk)) for _ in range(240 if ctx.thorough else 40)], PROJ, oracle, (classify if "classify" in globals() else None))
